@@ -2846,6 +2846,21 @@ func (col *DatabaseCollectionWithUser) documentUpdateFunc(
 		return
 	}
 
+	// An error from here on abandons the sequence this attempt has just been given: hand it back with the unused ones so
+	// that the caller releases it. The sequence carried over from an earlier attempt is released by the caller itself,
+	// whether this attempt reused it or set it aside, so it is left out.
+	assignedSequence := doc.Sequence
+	defer func() {
+		if err != nil {
+			retUnusedSequences = nil
+			for _, seq := range append(unusedSequences, assignedSequence) {
+				if seq != previousDocSequenceIn {
+					retUnusedSequences = append(retUnusedSequences, seq)
+				}
+			}
+		}
+	}()
+
 	// The callback has updated the HLV for mutations coming from CBL. Set the current version (to the
 	// pre-generated value for new-version events) before updateChannels, which needs it for removals.
 	doc, err = col.updateHLV(ctx, doc, docUpdateEvent, mouMatch, generatedVersion)
